@@ -159,6 +159,30 @@ def px_streams(pid, tier, rng, scale):
                     if N <= 3: return rng.getrandbits(N) << sh
                     return anyp(N, rng) << sh
                 cases = []
+                if op.startswith('gg_'):
+                    # generic-to-generic: (second width M, source pattern); every source when it has <= 9 bits, else structured sources plus
+                    # the rounding boundaries of the target format (tie, neighbours, tie +- one bit at every position) representable in the source
+                    from .gen_inputs import narrowing_sources
+                    from optable import GG_WIDTHS
+                    es_o = 2 if ty == 'px1' else (2 if op == 'gg_from_px2' else 1)
+                    es_n = 1 if ty == 'px1' else 2
+                    per_ = max(20, per * 2 // 5)
+                    for M_ in GG_WIDTHS:
+                        if '_to_' in op: sw, ses, tw, tes = N, es_n, M_, es_o
+                        else: sw, ses, tw, tes = M_, es_o, N, es_n
+                        ssh = 32 - sw
+                        if sw <= 9: srcs = [v << ssh for v in range(1 << sw)]
+                        else:
+                            srcs = [v << ssh for v in interesting_posits(sw, rng, max(8, per_ // 6))]
+                            if tw >= 4 and (tw, tes) != (sw, ses):
+                                low_ = (1 << ssh) - 1
+                                nb = [v for (v,) in narrowing_sources(32, tw, ses, tes, 60 if tw > 8 else 700) if v & low_ == 0]
+                                srcs += nb if len(nb) <= per_ // 2 else rng.sample(nb, per_ // 2)
+                        if sw <= 9 and len(srcs) > per_: srcs = rng.sample(srcs, per_) + [0, 1 << 31, 1 << ssh, (1 << 31) - (1 << ssh), (1 << 31) + (1 << ssh), (1 << 32) - (1 << ssh), 1 << 30]
+                        cases += [(M_, v) for v in srcs]
+                    for vals in cases:
+                        lines.append('%s %s %x %s' % (ty, op, N, ' '.join('%x' % v for v in vals)))
+                    continue
                 if all(k == 'X' for k in args):
                     if N * len(args) <= 10:                      # small widths: every operand tuple
                         import itertools
